@@ -479,6 +479,47 @@ def check_counter_loop(b, head, blocks, var=None):
     return False, "no loop exit compares %s" % var
 
 
+def check_shrinking_slice_loop(b, head, blocks):
+    """`while let Some((first, rest)) = v.split_first() { ..; v = rest (possibly advanced further); }`: the loop is left when the
+    slice is empty, and every turn that goes round again assigns the slice variable from the `rest` of this turn's split — a
+    strictly shorter slice (reading from a `&[u8]` or re-slicing `&rest[k..]` only shortens it further)."""
+    for c in b.calls:
+        if c.bb not in blocks or not re.search(r"slice::<impl \[T\]>::(split_first|split_last)$", c.fn or ""):
+            continue
+        # the exit: the discriminant of the split result leaves the loop on None
+        exits = False
+        for x in blocks:
+            t = b.term(x)
+            if t["k"] == "switch" and any(s_ not in blocks for s_ in b.succ[x]):
+                p = op_place(t["d"])
+                d = b.single_def(p["l"]) if p is not None and not p["p"] else None
+                if d and d[2] == "rv" and d[3]["k"] == "discr" and d[3]["p"]["l"] == c.dest["l"]:
+                    exits = True
+        if not exits:
+            continue
+        q = op_place(c.args[0])
+        if q is None:
+            continue
+        v = b.root_place(q, through_names=False)["l"]
+        # locals that hold (a view of) the rest of this split
+        rest = set()
+        for bi, si, st in b.stmts():
+            if "lhs" in st and not st["lhs"]["p"] and st["rv"]["k"] in ("use", "ref"):
+                src = op_place(st["rv"]["o"]) if st["rv"]["k"] == "use" else st["rv"]["p"]
+                if src is None:
+                    continue
+                fl = [e.get("f") for e in src["p"] if isinstance(e, dict) and "f" in e]
+                if src["l"] == c.dest["l"] and fl and fl[-1] == 1:
+                    rest.add(st["lhs"]["l"])
+                elif src["l"] in rest and not [e for e in src["p"] if isinstance(e, dict) and "f" in e]:
+                    rest.add(st["lhs"]["l"])
+        stores = [bi for bi, si, st in b.stmts() if bi in blocks and "lhs" in st and st["lhs"]["l"] == v and not st["lhs"]["p"]
+                  and st["rv"]["k"] == "use" and op_place(st["rv"]["o"]) is not None and op_place(st["rv"]["o"])["l"] in rest]
+        if stores and every_cycle_passes(b, head, blocks, stores):
+            return True, "every turn assigns %s from the rest of its own split_first(): the slice gets strictly shorter, the loop ends when it is empty" % b.pname({"l": v, "p": []}, 1)
+    return False, "no slice that every turn replaces by the rest of its split"
+
+
 def check_counter_or_pop_loop(b, head, blocks, var=None, stack=None):
     if var is None or stack is None:
         stacks = []
@@ -549,6 +590,20 @@ def check_visited_loop(b, head, blocks, setname=None):
         return False, why
     ins = [c for c in b.calls if c.bb in blocks and re.search(r"HashSet::<.*>::insert$", c.fn or c.name) and setname in b.oname(c.args[0], 2)]
     con = [c for c in b.calls if c.bb in blocks and re.search(r"HashSet::<.*>::contains$", c.fn or c.name) and setname in b.oname(c.args[0], 2)]
+    if ins and not con:
+        # `if !seen.insert(x) { break }`: insert answers whether the value was new; the loop is left when it was not
+        if not every_cycle_passes(b, head, blocks, [c.bb for c in ins] + sorted(not_a_reference_edges(b, blocks))):
+            return False, "a cycle of the loop avoids %s.insert (and does not pass a not-a-reference edge)" % setname
+        for c in ins:
+            if c.to is None:
+                continue
+            t = b.term(c.to)
+            if t["k"] == "switch" and lib.switch_on(b, c.to, c.dest["l"]):
+                # the false edge (value already present) leaves the loop
+                fa = [x for v, x in t["tg"] if str(v) == "0"]
+                if fa and not any(b.can_reach(x, head, avoid=()) and x in blocks for x in fa):
+                    return True, "every cycle inserts into %s and leaves the loop when the value was already there (insert answered false)" % setname
+        return False, "the answer of %s.insert is not used to leave the loop" % setname
     if not ins or not con:
         return False, "no insert/contains on %s inside the loop" % setname
     if not every_cycle_passes(b, head, blocks, [c.bb for c in ins] + sorted(not_a_reference_edges(b, blocks))):
@@ -735,6 +790,8 @@ def check_termination(ctx, F, scope, loops_table, rec_table, rule="R-TERM"):
                     ok, how = check_counter_or_pop_loop(b, head, blocks, None, None)
                 elif w == "resolver-loop":
                     ok, how = check_resolver_loop(F, b, head, blocks)
+                elif w == "shrinking-slice":
+                    ok, how = check_shrinking_slice_loop(b, head, blocks)
                 elif w == "monotone-exit":
                     ok, how = check_monotone_exit_loop(b, head, blocks, None)
                 elif w == "tabled":
